@@ -191,7 +191,10 @@ func drawC12(rt *rapid.T, tier string) SrvScenario {
 	if focus > 0 {
 		pool := []int{rapid.IntRange(0, len(gen.Queries)-1).Draw(rt, "focus_q1"), rapid.IntRange(0, len(gen.Queries)-1).Draw(rt, "focus_q2")}
 		if focus == 2 {
-			pool = []int{17, 18} // the two shapes whose cache key texts collide
+			// pairs of shapes that a sloppy cache key confuses: key texts that collide, the same name
+			// and type in another class, types and classes that are equal modulo 256, letter case,
+			// the same name with another type
+			pool = rapid.SampledFrom([][]int{{17, 18}, {17, 18}, {0, 21}, {3, 22}, {0, 23}, {0, 17}, {0, 13}, {0, 1}, {0, 6}, {2, 3, 4}}).Draw(rt, "focus_pair")
 		}
 		for ci := range sc.Clients {
 			for qi := range sc.Clients[ci] {
@@ -324,6 +327,27 @@ func runC12(t *testing.T, sc SrvScenario, keep bool) *core.Result {
 							if diffResponses(a, b, false, false) == "" {
 								excuse = true
 							}
+						}
+					}
+				}
+				if !excuse && q.Counters["DNS_cache.hit"] > 0 {
+					// a catch-up that took effect without a successful reload after it (the reload timed
+					// out or was rejected: C05's recorded finding) changes the data under a cache that
+					// nobody purges, and rightly so from the server's point of view: the reload failed.
+					// A hit on an entry from before that catch-up is C05's matter as well.
+					var lastOK uint64
+					for _, o := range h.Ops {
+						if o.Op.Kind == "reload" && o.Done && o.OK && o.Ret < q.Inv && o.Ret > lastOK {
+							lastOK = o.Ret
+						}
+					}
+					for _, cu := range h.Mon.CatchUps {
+						p := cu.At
+						if p == 0 {
+							p = cu.End
+						}
+						if p > lastOK && p < q.Ret {
+							excuse = true
 						}
 					}
 				}
